@@ -20,6 +20,7 @@ import (
 	"reflect"
 	"strings"
 	"sync"
+	"time"
 
 	ap "github.com/go-ap/activitypub"
 	"github.com/go-ap/activitypub/verifsim"
@@ -159,6 +160,26 @@ func writeClass(d string) string {
 		return "list-argument[]"
 	}
 	return cls
+}
+
+// clockDeltas: what a clock can do between two looks at it – tick, run on for a while (past any
+// sensible expiry), be set back by NTP or an operator.
+var clockDeltas = []time.Duration{time.Second, time.Minute, 11 * time.Minute, time.Hour, 25 * time.Hour, 366 * 24 * time.Hour, -time.Second, -time.Hour}
+
+// namedFamily: the operation belongs to one of the families the property names – encoding,
+// comparing, formatting, inspecting, viewing through On*/To*. Their results are functions of the
+// value alone.
+func namedFamily(name string) bool {
+	k := opKind(name)
+	if i := strings.LastIndex(k, "."); i >= 0 {
+		k = k[i+1:]
+	}
+	for _, p := range []string{"Marshal", "GobEncode", "ItemsEqual", "Equals", "Format", "String", "IsNil", "NotEmpty", "Is", "Contains", "Count", "First", "Get", "On", "To", "DerefItem", "ItemsMatch", "IRIs", "Collection", "Normalize", "%"} {
+		if strings.HasPrefix(k, p) {
+			return true
+		}
+	}
+	return strings.HasPrefix(name, "fmt") || strings.HasPrefix(name, "inspect")
 }
 
 type taskPlan struct {
@@ -307,6 +328,36 @@ func run(c *core.Ctx) {
 		}
 	}
 
+	// ---- clock faults (1 run in 6): the simulated clock jumps – forwards by a second up to a year,
+	// or backwards – between the passes and after the k-th clock read inside the concurrent phase.
+	// On the pinned tree nothing reads the clock; a change that starts to (a cache with an expiry)
+	// meets expiry and skew here instead of never within the milliseconds a run takes.
+	clockFault := !canary && t.Bool(1, 6)
+	var clockJumps [4]time.Duration
+	var clockJumpAfter int64
+	if clockFault {
+		for i := range clockJumps {
+			clockJumps[i] = clockDeltas[t.Draw(len(clockDeltas))]
+		}
+		clockJumpAfter = int64(1 + t.Draw(12))
+		c.Logf("clock faults: %v between pass 1 and 2, %v before the concurrent phase, %v after %d more clock reads, %v before the last pass", clockJumps[0], clockJumps[1], clockJumps[2], clockJumpAfter, clockJumps[3])
+	}
+	reads0 := simrt.ClockReadCount()
+	jump := func(i int) {
+		if clockFault {
+			simrt.JumpClock(clockJumps[i])
+			c.Fault("clock_jump")
+		}
+	}
+	// an operation whose result may depend on the time of the call: it read the clock and is not one
+	// of the families the property names (encode, compare, format, inspect, view) – a constructor
+	// that stamps the current time is not a read-only operation on a value. Only in clock-fault
+	// runs, only for such operations, the cross-pass comparisons are skipped.
+	timeDependent := func(ti, oi int) bool {
+		o := plans[ti].ops[oi]
+		return clockFault && o.readsClock && !namedFamily(o.name)
+	}
+
 	// ---- O2 baseline, before anything touches the values
 	// (the third root: the list arguments the operations are handed – shared by all tasks, and as
 	// much "arguments" of the read-only operations as the values are)
@@ -337,9 +388,12 @@ func run(c *core.Ctx) {
 			}
 			res[ti] = make([]string, len(p.ops))
 			for oi, o := range p.ops {
-				s0 := simrt.Steps
+				s0, r0 := simrt.Steps, simrt.ClockReadCount()
 				r, perr := guardedRun(o)
 				steps[ti] += simrt.Steps - s0
+				if simrt.ClockReadCount() != r0 {
+					o.readsClock = true
+				}
 				if perr != "" {
 					// a panic that also happens sequentially is not C12's subject (C04/C20): it is
 					// just this operation's outcome, and must be the same under every schedule
@@ -377,13 +431,14 @@ func run(c *core.Ctx) {
 			finish(c, nil, nil)
 			return
 		}
+		jump(0)
 		ref2, _ = seqPass("sequential pass 2", false)
 		if c.Failed() {
 			finish(c, nil, nil)
 			return
 		}
 	}
-	if ti, oi := firstDiff(ref, ref2); ti >= 0 {
+	if ti, oi := firstDiff(ref, ref2, timeDependent); ti >= 0 {
 		o := plans[ti].ops[oi]
 		c.Fail("sequential", "C12/second-call/"+opKind(o.name), "%s gives another result when called a second time on the same value: %q then %q", o.name, clip(ref[ti][oi]), clip(ref2[ti][oi]))
 		finish(c, nil, nil)
@@ -477,6 +532,10 @@ func run(c *core.Ctx) {
 		c.Fail("harness", "C12/harness/pipe", "%v", err)
 		return
 	}
+	jump(1)
+	if clockFault {
+		simrt.ArmClockJump(clockJumpAfter, clockJumps[2])
+	}
 	defer s.Close()
 	s.Check = check
 	curOp = make([]string, nTasks)
@@ -528,7 +587,7 @@ func run(c *core.Ctx) {
 			ref2, _ = seqPass("sequential pass 2", false)
 		}
 		if !c.Failed() {
-			if ti, oi := firstDiff(ref, ref2); ti >= 0 {
+			if ti, oi := firstDiff(ref, ref2, timeDependent); ti >= 0 {
 				o := plans[ti].ops[oi]
 				c.Fail("sequential", "C12/second-call/"+opKind(o.name), "%s gives another result when called a second time on the same value: %q then %q", o.name, clip(ref[ti][oi]), clip(ref2[ti][oi]))
 			}
@@ -537,19 +596,26 @@ func run(c *core.Ctx) {
 	keptChanged(c, "under the schedule", plans, got)
 	resultAliases(c, "under the schedule", plans, got)
 	if !c.Failed() {
-		if ti, oi := firstDiff(ref, got); ti >= 0 {
+		if ti, oi := firstDiff(ref, got, timeDependent); ti >= 0 {
 			o := plans[ti].ops[oi]
 			c.Fail("diverge", "C12/diverge/"+opKind(o.name), "task %d: %s returned %q under the schedule but %q sequentially", ti, o.name, clip(got[ti][oi]), clip(ref[ti][oi]))
 		}
 	}
 	if !c.Failed() {
 		verifsim.Hook = hook
+		jump(3)
 		ref3, _ := seqPass("sequential pass 3 (after the join)", false)
 		if !c.Failed() {
-			if ti, oi := firstDiff(ref, ref3); ti >= 0 {
+			if ti, oi := firstDiff(ref, ref3, timeDependent); ti >= 0 {
 				o := plans[ti].ops[oi]
 				c.Fail("sequential", "C12/second-call/"+opKind(o.name), "%s gives another result after the concurrent phase: %q then %q", o.name, clip(ref[ti][oi]), clip(ref3[ti][oi]))
 			}
+		}
+	}
+	if simrt.ClockReadCount() != reads0 {
+		c.Probe("library_read_the_clock")
+		if simrt.ClockJumps > 0 {
+			c.Probe("clock_jumped_between_two_reads_of_the_concurrent_phase")
 		}
 	}
 	for _, n := range e.notDriven {
@@ -595,9 +661,12 @@ func clip(s string) string {
 	return s
 }
 
-func firstDiff(a, b [][]string) (int, int) {
+func firstDiff(a, b [][]string, skip func(ti, oi int) bool) (int, int) {
 	for ti := range a {
 		for oi := range a[ti] {
+			if skip != nil && skip(ti, oi) {
+				continue
+			}
 			if ti >= len(b) || oi >= len(b[ti]) || a[ti][oi] != b[ti][oi] {
 				return ti, oi
 			}
